@@ -1,7 +1,10 @@
 """Write seeded/<id>/meta.json from the patch, the confirmation logs and the sweep results."""
 import json, os, re, glob
 ROOT = '/verif/seeded'
-INITIAL_MISS = {'C19-9': 'clients created by the provider / consumer factories were proved to carry the TLS context, but nothing stated that the factories are the only way a connection is opened (a direct urllib.request.urlopen in the WSDL reader bypassed them); the bounded TLS run only meets WSDL locations on the hosted endpoint',
+INITIAL_MISS = {'C15-9': 'stopping the networking thread was not under contract: join() with a timeout that clears the send queue drops scheduled repetitions; the schedule and the send loop themselves were proved',
+                'C18-9': 'the converters were under contract, the shared read path of typed attributes (which decides whether a present lexical value reaches its converter at all) only under C05',
+                'C01-9': 'buffering of early notifications (reload_all / _pre_check_report_ok) was proved under C06 only; C01 names it as its third mechanism but did not re-check it, and no bounded history delivers a report during the replay',
+                'C19-9': 'clients created by the provider / consumer factories were proved to carry the TLS context, but nothing stated that the factories are the only way a connection is opened (a direct urllib.request.urlopen in the WSDL reader bypassed them); the bounded TLS run only meets WSDL locations on the hosted endpoint',
                 'C04-9': 'the commit-and-notify critical section was proved under C02 only and did not treat the rt_updates observable as a publication; C04 (report order = commit order) did not re-check it',
                 'C05-9': 'time zones of DateOfBirth were sampled (whole hours, +-45 min), not enumerated; offsets between -00:59 and -00:01 were never written',
                 'C10-9': 'that the stamped new_mdib_version is the version the commit creates was trusted from C02 (transaction created inside the locks, commit sets exactly new_mdib_version) and not re-checked by the C10 check',
